@@ -33,11 +33,12 @@ LEVEL_TEXT = (
 )
 RULE = (
     "random histories (1..5 revisions quick, ..9 thorough; sparse object numbers; overrides; root/info redefinition) x "
-    "physical form per revision {table, xref stream (W variants, /Index multi-range or absent, Flate/PNG-Up/raw), hybrid} x "
+    "physical form per revision {table, xref stream (W variants, /Index multi-range or absent, Flate / PNG predictor rows of every filter type under /Predictor 10-15 / raw), hybrid} x "
     "object-stream packing x EOL styles x caching {on,off} x BUFSIZ {16,61,4096}; each history rendered in 3 forms "
     "(metamorphic group). distinct = distinct rendered files; non-trivial = >=2 revisions or a non-table form or an "
     "object stream. Fallback family: single-revision classic files (objects at line starts, ASCIIHex content) with damaged "
-    "startxref / table. Not generated: deletions (free entries for defined objects), generation numbers > 0."
+    "startxref / table (incl. offsets of integer tokens near the end of the file), the value following the obj keyword after LF, CR LF, space, tab or directly. "
+    "tools/dumppdf.py -a (dumpallobjs) over a third of the renderings must list exactly the in-use objects; a twelfth of the objects have a value that is false in Python. Not generated: deletions (free entries for defined objects), generation numbers > 0."
 )
 ASSUMPTIONS = [
     "the history renderer vf/gen/xrefw.py writes ISO 32000-1 7.5.4-7.5.8 conformant files",
